@@ -1234,6 +1234,12 @@ fn node_step(b: &Built, node: &Arc<Node>, values: &[u64], now: u64, answer: bool
     let mut signed = Value::Null;
     if hcode == 0 && !poisoned && b.malformed.is_empty() && b.ins.iter().all(|i| i.signable) {
         let ipaths: Vec<DerivationPath> = b.ins.iter().map(|i| i.ipath.clone()).collect();
+        // what a restart would already change before this request (this domain forces some
+        // channel states in memory when it prepares a case): not this request's doing
+        let pre_gap: Vec<String> = {
+            let shadow = b.world.restart(&node.get_id());
+            fingerprint_diff(&fingerprint(node), &fingerprint(&shadow))
+        };
         let r = catch_unwind(AssertUnwindSafe(|| node.unchecked_sign_onchain_tx(&b.tx, &ipaths, &prev_outs, b.ucks.clone())));
         match r {
             Ok(Ok(wit)) => {
@@ -1254,7 +1260,8 @@ fn node_step(b: &Built, node: &Arc<Node>, values: &[u64], now: u64, answer: bool
                 // C11 (reported under that property, not under C08): a signer restored from the
                 // store right after the signature has the same channels, tracker and node state
                 let shadow = b.world.restart(&node.get_id());
-                let d = fingerprint_diff(&fingerprint(node), &fingerprint(&shadow));
+                let d: Vec<String> =
+                    fingerprint_diff(&fingerprint(node), &fingerprint(&shadow)).into_iter().filter(|x| !pre_gap.contains(x)).collect();
                 if !d.is_empty() {
                     monitor.push(format!("C11: after check_onchain_tx + unchecked_sign_onchain_tx (Ok) a restart would differ: {}", d.join("; ")));
                 }
